@@ -555,6 +555,14 @@ mod huffman {
                 }
             }
             levels.sort_by(|x, y| x.0.cmp(&y.0));
+            // A lone symbol would get a zero-length code; give it one bit and let both
+            // one-bit patterns decode to it so the table has no void entries.
+            let lone = if levels.len() == 1 {
+                levels[0].0 = 1;
+                Some(levels[0].1)
+            } else {
+                None
+            };
             let mut code: u64 = 0;
             let mut prev_level = 0;
             let mut encode = BTreeMap::new();
@@ -568,6 +576,9 @@ mod huffman {
                 Self::insert_decode(&mut decode, sym, level, code << (64 - level));
 
                 code += 1;
+            }
+            if let Some(sym) = lone {
+                Self::insert_decode(&mut decode, sym, 1, 1u64 << 63);
             }
 
             for (index, entry) in decode.iter().enumerate() {
